@@ -92,10 +92,9 @@ theorem chunkDown_spec (l : Location) (hl : WF l) (w : Blk) (wst : Strand) :
   unfold chunkDown
   rw [if_neg hlen]
   cases l with
-  | empty => simp [throw, throwThe, MonadExceptOf.throw]
+  | empty => simp [relativeToSingle, pure, Except.pure]
   | single b st =>
     have hb : b.1 ≤ b.2 := hl
-    rw [if_neg (by simp)]
     simp only [relativeToSingle, locationBlocks]
     by_cases h : max w.1 b.1 < min w.2 b.2
     · have ho : overlapKernel b w = true := (overlapKernel_iff b w).mpr ⟨by omega, hwl, by omega⟩
@@ -114,7 +113,6 @@ theorem chunkDown_spec (l : Location) (hl : WF l) (w : Blk) (wst : Strand) :
   | compound l =>
     have hv : ∀ b ∈ l.blocks, b.1 ≤ b.2 := (blocksValid_iff _).mp hl.2.1
     have hcl : (locationBlocks (.compound l)).filterMap (clip w) = _ := clips_eq w hwl l.blocks hv
-    rw [if_neg (by simp)]
     simp only [relativeToSingle, hcl]
     generalize hhits : l.blocks.filter (fun b => overlapKernel w b) = hits
     have hhv : ∀ b ∈ hits, max w.1 b.1 < min w.2 b.2 := by
